@@ -84,6 +84,9 @@ def make_replay(prop, clause, path, seed, mod, known=None, cached=None):
             res = dict(cached) if (cached and k == 0) else run_script(script, mode, params, seed)
             res.setdefault("replay_s", round(time.time() - t0, 2))
             tried.append("%s %s" % (script, mode))
+            if res.get("reproduced") and res.get("known_finding") and (known is None or known.get("id") != res.get("known_finding")):
+                # the scenario only met a RECORDED finding that is not what this obligation is about: no evidence for it
+                res = dict(res, reproduced=False, note="only the recorded finding %s was met" % res.get("known_finding"))
             if res.get("reproduced") or k == len(cands) - 1:
                 break
         res["concretisers_tried"] = tried
